@@ -30,6 +30,8 @@ type PropDef struct {
 	Extra          func(r *propRun)
 	ServiceLoops   []string // loop keys that are intentionally unbounded service loops
 	Select         func(o *govc.Oblig) bool // which obligations of the units belong to this property (nil = all)
+	BPF            []BPFUnit                // eBPF entry points verified through the LLVM-IR front end
+	BPFKinds       string                   // obligation kinds claimed for the BPF units ("" = all)
 }
 
 func (d *PropDef) units(p *govc.Program) []Unit {
